@@ -119,7 +119,10 @@ def make_ref(a, b, typ, inline):
         if x is None:
             return Column(f'd{i}', 'int')
         if x not in tabs:
-            tabs[x] = Table(f'tab{x}')
+            # 2 is a look-alike of table 0: ANOTHER table with the same schema and name (and other columns)
+            tabs[x] = Table(f'tab{x}') if x != 2 else Table('tab0', note='the other tab0')
+            if x == 2:
+                tabs[x].add_column(Column('only_here', 'text'))
         c = Column(f'c{len(tabs[x].columns)}', 'int')
         tabs[x].add_column(c)
         return c
@@ -185,10 +188,10 @@ def main(tier, seed):
                 ctx.diverge('element .sql outcome', {'op': 'elem', 'job': job}, m, r['self'])
 
     # ---- part 2: references with detached / mixed endpoints
-    side_vals = [None, 0, 1]
+    side_vals = [None, 0, 1, 2]
     sides = [list(s) for n in (1, 2) for s in itertools.product(side_vals, repeat=n)]
     if ctx.thorough:
-        sides += [list(s) for s in itertools.product(side_vals, repeat=3)]
+        sides += [list(s) for s in itertools.product([None, 0, 1], repeat=3)]
     rjobs = [(a, b, typ, inline) for a in sides for b in sides for typ in ('>', '<', '-', '<>') for inline in (False, True)]
     rres = core.pmap(ref_job, rjobs)
     rmodel = None
@@ -369,7 +372,7 @@ def main(tier, seed):
     return ctx.finish(
         rule='exhaustive: 6 element kinds x every subset (size<=2, and all) of required attributes unset x attached/detached x '
              'reached by constructor or by editing, rendered directly, through the parent table and through the database; '
-             'references: every assignment of {detached, table A, table B} to 1-2 (thorough 3) columns per side x 4 kinds x '
+             'references: every assignment of {detached, table A, table B, a namesake of table A} to 1-2 (thorough 3, without the namesake) columns per side x 4 kinds x '
              'inline; indexes no table holds after 5 kinds of history x 4 flavours (same behaviour as a never-offered index); get_refs on all 4 attachment states. Non-trivial: something unset / detached / mixed; distinct by case hash',
         explanation='Decision logic stated outright as Lean theorems over the model of check_attributes_for_sql and the '
                     'reference validations; model tied to the real classes by exhaustive enumeration of the finite case space; '
